@@ -13,7 +13,8 @@
 (*                                                                         *)
 (*   alloc_cache(flags)   : cacheStruct ; [JIT: jitObj ; code] ; cacheMem  *)
 (*   alloc_dataset(flags) : dsStruct ; dsMem                               *)
-(*   create_vm(flags)     : vmObj ; [JIT: code] ; scratchpad               *)
+(*   create_vm(flags)     : vmObj ; [JIT: code] ; [long key: keyCopy] ;    *)
+(*                          scratchpad                                     *)
 (*   (cacheMem, dsMem, scratchpad are large-page mappings with LARGE_PAGES)*)
 (***************************************************************************)
 EXTENDS Integers, FiniteSets, Sequences, TLC
@@ -23,7 +24,7 @@ CONSTANTS Objs,            \* object identities
           DeallocEarlyOut  \* FALSE = the code as it is; TRUE = deallocCache returning early without memory (defect variant)
 
 Ops == {"alloc_cache", "alloc_dataset", "create_vm"}
-Flags == [jit : BOOLEAN, large : BOOLEAN]
+Flags == [jit : BOOLEAN, large : BOOLEAN, key : BOOLEAN]     \* key: the VM is bound to a cache whose key string does not fit the small-string buffer (> 15 bytes)
 
 Heap(n) == [kind |-> "heap", name |-> n]
 Map(n) == [kind |-> "map", name |-> n]
@@ -36,6 +37,7 @@ Steps(op, f) ==
                                \o <<Mem("cacheMem", f)>>
     [] op = "alloc_dataset" -> <<Heap("dsStruct"), Mem("dsMem", f)>>
     [] op = "create_vm"     -> <<Heap("vmObj")>> \o (IF f.jit THEN <<Map("code")>> ELSE <<>>)
+                               \o (IF f.key THEN <<Heap("keyCopy")>> ELSE <<>>)      \* vm->cacheKey = cache->cacheKey (inside the try block)
                                \o <<Mem("scratchpad", f)>>
 
 VARIABLES live,      \* bag of live resources: set of <<object, step index>> (each step of an object at most once)
@@ -43,7 +45,7 @@ VARIABLES live,      \* bag of live resources: set of <<object, step index>> (ea
           lastCall   \* record describing the outcome of the most recent call (observable result)
 vars == <<live, obj, lastCall>>
 
-NoObj == [state |-> "none", op |-> "none", flags |-> [jit |-> FALSE, large |-> FALSE], fields |-> {}]
+NoObj == [state |-> "none", op |-> "none", flags |-> [jit |-> FALSE, large |-> FALSE, key |-> FALSE], fields |-> {}]
 Init == live = {} /\ obj = [o \in Objs |-> NoObj] /\ lastCall = [op |-> "none"]
 
 \* index of the first step that fails: the injected one, or a large-page step the OS refuses
@@ -85,7 +87,8 @@ Released(op, f, steps, failed) ==
       byRelease ==
         CASE op = "alloc_cache" ->
                IF fs.jit /\ ~(DeallocEarlyOut /\ ~fs.memory) THEN {Idx(steps, "jitObj"), Idx(steps, "code")} ELSE {}
-          [] op = "create_vm" -> IF fs.code THEN {Idx(steps, "code")} ELSE {}
+          [] op = "create_vm" -> (IF fs.code THEN {Idx(steps, "code")} ELSE {})
+                                 \cup (IF Idx(steps, "keyCopy") \in 1..(failed - 1) THEN {Idx(steps, "keyCopy")} ELSE {})   \* member string, freed by the destructor
           [] OTHER -> {}
       \* alloc_cache / alloc_dataset: the struct exists once step 1 succeeded and is deleted by the release function;
       \* create_vm: `vm` is assigned only after the constructor returned, `delete vm` on nullptr is a no-op
@@ -96,6 +99,7 @@ Released(op, f, steps, failed) ==
 Create(o, op, f, failAt) ==
   /\ obj[o].state = "none" /\ op \in Ops /\ f \in Flags
   /\ (op = "alloc_dataset" => ~f.jit)
+  /\ (op # "create_vm" => ~f.key)
   /\ LET steps == Steps(op, f)
          ff == FirstFailure(steps, failAt)
      IN  /\ failAt \in 0..Len(steps)
@@ -118,7 +122,7 @@ Destroy(o) ==
   /\ obj' = [obj EXCEPT ![o] = NoObj]
   /\ lastCall' = [op |-> "release", of |-> obj[o].op, flags |-> obj[o].flags, released |-> Cardinality(obj[o].fields)]
 
-Next == \/ \E o \in Objs, op \in Ops, f \in Flags, k \in 0..4 : Create(o, op, f, k)
+Next == \/ \E o \in Objs, op \in Ops, f \in Flags, k \in 0..5 : Create(o, op, f, k)
         \/ \E o \in Objs : Destroy(o)
 Spec == Init /\ [][Next]_vars
 
@@ -126,7 +130,7 @@ Spec == Init /\ [][Next]_vars
 \* every live resource belongs to a live object that holds it: nothing leaks, nothing is double-owned
 NoLeak == live = UNION {{<<o, i>> : i \in obj[o].fields} : o \in {x \in Objs : obj[x].state = "live"}}
 \* a failed creating call returns NULL and leaves the live set exactly as it was at entry
-FailureIsClean == [][\A o \in Objs, op \in Ops, f \in Flags, k \in 0..4 :
+FailureIsClean == [][\A o \in Objs, op \in Ops, f \in Flags, k \in 0..5 :
                        (Create(o, op, f, k) /\ ~lastCall'.ok) => live' = live]_vars
 \* release gives back everything the creation acquired
 ReleaseGivesBack == [][\A o \in Objs : Destroy(o) => Cardinality(live') = Cardinality(live) - Cardinality(obj[o].fields)]_vars
